@@ -136,13 +136,27 @@ def rule_d3(toks, log, drop=()):
                 # plus the proof obligation `assert(__zchkK == 0)` unless the ordinal is in the drop list.
                 if len(args) != 1 or not args[0] or any(x[2] for x in args[0]):
                     raise Unsupported('D3z: debug_assert_zero! shape: ' + _txt(toks[i:e + 1]))
-                if i > 0 and _is(toks[i - 1], '=>') and not toks[i - 1][2] and e + 1 < len(toks) and _is(toks[e + 1], ',') \
+                _ab = i - 1      # annotation tokens (a `proof { .. }` block) may sit between `=>` and the macro call
+                while _ab >= 0 and toks[_ab][2]:
+                    _ab -= 1
+                if _ab >= 0 and _is(toks[_ab], '=>') and not toks[_ab][2] and e + 1 < len(toks) and _is(toks[e + 1], ',') \
                         and not toks[e + 1][2]:
                     # D3z-arm: `PAT => debug_assert_zero!(E) ,` (the macro call is the whole match-arm expression, value `()`)
-                    # ==> `PAT => { let __zchkK = E ; assert ( __zchkK == 0 ) ; } ,` (same meaning as the statement form)
+                    # ==> `PAT => { let __zchkK = E ; [proof] assert ( __zchkK == 0 ) ; } ,` (same meaning as the statement
+                    # form); an annotation `proof { .. }` written between `=>` and the macro call argues about the value just
+                    # computed: it goes between the evaluation and the obligation
+                    arm_proof = toks[_ab + 1:i]
+                    if arm_proof:
+                        if not (_is(arm_proof[0], 'proof') and len(arm_proof) >= 3 and _is(arm_proof[1], '{')
+                                and _match_close(arm_proof, 1) == len(arm_proof) - 1):
+                            raise Unsupported('D3z-arm: annotation before debug_assert_zero! in a match arm must be one proof block')
+                        del out[len(out) - len(arm_proof):]
                     zv = '__zchk%d' % n_assert
                     n_assert += 1
                     out += toks_of('{ let %s =' % zv, False) + args[0] + [T('p', ';')]
+                    if arm_proof:
+                        out += arm_proof
+                        log.append('D3z-arm   (proof block in front of the macro call placed before the obligation)')
                     if n_assert - 1 in drop or '*' in drop:
                         log.append('D3z-arm debug_assert_zero #%d `%s` (match arm): evaluated, comparison dropped' % (
                             n_assert - 1, _txt(args[0])))
@@ -1607,16 +1621,140 @@ def rule_d18(toks, log):
 
 
 # ---------------------------------------------------------------------------------------
+# D20: tail cut (marker `#[cut_tail]` in an annotation block between two top-level statements of the body)
+
+def rule_d20(toks, log):
+    """Marker `#[cut_tail]` (annotation tokens) placed BETWEEN two top-level statements of the function body: every token
+    from the marker up to the closing brace of the body is replaced by the tail expression `__cut_tail()`, where the unit
+    declares `#[verifier::external_body] fn __cut_tail<T>() -> T` WITHOUT any `ensures` (an arbitrary value of the return
+    type).  What is verified is the PREFIX only: its panic-freedom, its early `return`s against the contract, and the
+    proof obligations (`assert`) placed in front of the marker; nothing is claimed about the dropped tail and the
+    function's `ensures` cannot be established through it (the canary `ensures false` therefore still fails).
+    Used where the tail is a sequence of `core::fmt::Formatter` / `write!` calls that Verus cannot host (float/src/fmt.rs).
+    Shape checks: exactly one marker, at nesting depth 0 of the body, right after a real `;` or `}`, and at least one real
+    token is dropped."""
+    hits = [i for i in range(len(toks) - 3)
+            if toks[i][2] and _is(toks[i], '#') and _is(toks[i + 1], '[') and _is(toks[i + 2], 'cut_tail') and _is(toks[i + 3], ']')]
+    if not hits:
+        return toks
+    if len(hits) != 1:
+        raise Unsupported('D20: more than one #[cut_tail] marker')
+    m = hits[0]
+    f = next((i for i, t in enumerate(toks) if not t[2] and _is(t, 'fn')), None)
+    if f is None:
+        raise Unsupported('D20: no fn')
+    b = next((i for i in range(f, len(toks)) if not toks[i][2] and _is(toks[i], '{')), None)
+    if b is None:
+        raise Unsupported('D20: no body')
+    e = _match_close(toks, b)
+    if not (b < m < e):
+        raise Unsupported('D20: #[cut_tail] outside the function body')
+    depth = 0
+    for t in toks[b + 1:m]:
+        if t[0] == 'p' and t[1] in rtok.OPEN:
+            depth += 1
+        elif t[0] == 'p' and t[1] in rtok.CLOSE:
+            depth -= 1
+    if depth != 0:
+        raise Unsupported('D20: #[cut_tail] is not between top-level statements of the body')
+    p = m - 1
+    while p > b and toks[p][2]:
+        p -= 1
+    if p == b or not (toks[p][0] == 'p' and toks[p][1] in (';', '}')):
+        raise Unsupported('D20: #[cut_tail] does not follow a complete statement')
+    dropped = [t for t in toks[m + 4:e] if not t[2]]
+    if not dropped:
+        raise Unsupported('D20: nothing to cut')
+    log.append('D20 tail cut: %d real tokens after `%s` replaced by `__cut_tail()` (arbitrary value, no contract): only the '
+               'prefix of the function is verified' % (len(dropped), _txt(toks[max(b + 1, p - 8):p + 1])[-60:]))
+    return toks[:m] + toks_of('__cut_tail ( )', False) + toks[e:]
+
+
+# ---------------------------------------------------------------------------------------
+# D21: indexed store whose right-hand side is a call, with a proof step between the call and the store
+# (directive `#[after_rhs]` in the annotation that follows the statement)
+
+def rule_d21(toks, log):
+    """`X [ I ] = CALL ;` / `X [ I ] += CALL ;` followed by the annotation `#[after_rhs] proof { .. }`
+    ==> `let __rhsK = CALL ; proof { .. } X [ I ] = __rhsK ;` (resp. `+=`).
+    Rust evaluates the right operand of `=` and (for primitive operands) of `+=` BEFORE the assignee place, so naming the
+    operand first changes nothing; the proof block may then speak about the state between the call and the store
+    (`__rhsK`, the callee's postcondition).  Shape-checked: X one identifier, I without calls/side effects (identifiers,
+    literals, + - *), the directive must follow the statement's `;` directly; anything else ==> unsupported."""
+    out = []
+    i = 0
+    n = 0
+    while i < len(toks):
+        t = toks[i]
+        if t[2] and _is(t, '#') and i + 3 < len(toks) and _is(toks[i + 1], '[') and _is(toks[i + 2], 'after_rhs') \
+                and _is(toks[i + 3], ']') and toks[i + 2][2]:
+            j = i + 4
+            if not (j + 1 < len(toks) and toks[j][2] and _is(toks[j], 'proof') and _is(toks[j + 1], '{')):
+                raise Unsupported('D21: #[after_rhs] must be followed by one proof block')
+            je = _match_close(toks, j + 1)
+            if not all(x[2] for x in toks[j:je + 1]):
+                raise Unsupported('D21: proof block mixes real tokens')
+            proof = toks[j:je + 1]
+            # the statement just emitted: ... X [ I ] OP RHS ;
+            if not out or not _is(out[-1], ';') or out[-1][2]:
+                raise Unsupported('D21: #[after_rhs] does not follow a statement')
+            k = len(out) - 2
+            d = 0
+            while k >= 0:
+                x = out[k]
+                if not x[2] and x[0] == 'p':
+                    if x[1] in rtok.CLOSE:
+                        d += 1
+                    elif x[1] in rtok.OPEN:
+                        if d == 0:
+                            break
+                        d -= 1
+                    elif d == 0 and x[1] == ';':
+                        break
+                k -= 1
+            stmt = out[k + 1:len(out) - 1]
+            lead = []
+            while stmt and stmt[0][2]:      # annotation tokens in front of the statement stay in front
+                lead.append(stmt.pop(0))
+            if any(x[2] for x in stmt):
+                raise Unsupported('D21: annotation inside the statement')
+            if len(stmt) < 6 or stmt[0][0] != 'id' or not _is(stmt[1], '['):
+                raise Unsupported('D21: statement shape (expected `X [ I ] = CALL ;`): ' + _txt(stmt))
+            ce = _match_close(stmt, 1)
+            idx = stmt[2:ce]
+            if any(not (x[0] in ('id', 'lit') or (x[0] == 'p' and x[1] in ('+', '-', '*'))) for x in idx):
+                raise Unsupported('D21: index expression shape: ' + _txt(idx))
+            if ce + 1 >= len(stmt) or not (stmt[ce + 1][0] == 'p' and stmt[ce + 1][1] in ('=', '+=')):
+                raise Unsupported('D21: operator shape: ' + _txt(stmt))
+            rhs = stmt[ce + 2:]
+            if not rhs or not _is(rhs[-1], ')'):
+                raise Unsupported('D21: right-hand side is not a call: ' + _txt(rhs))
+            rv = '__rhs%d' % n
+            n += 1
+            log.append('D21 `%s` -> right operand `%s` named %s before the store (proof step in between)' % (
+                _txt(stmt)[:70], _txt(rhs)[:50], rv))
+            out = out[:k + 1] + lead + toks_of('let %s =' % rv, False) + rhs + [T('p', ';')] + proof + \
+                stmt[:ce + 2] + toks_of('%s ;' % rv, False)
+            i = je + 1
+            continue
+        out.append(t)
+        i += 1
+    return out
+
+
+# ---------------------------------------------------------------------------------------
 
 def lower(toks, marks, opts=None):
     """toks: [(kind,text)], marks: [bool]; returns ([(kind,text)], log)."""
     opts = opts or {}
     log = []
     ts = [(k, t, m) for (k, t), m in zip(toks, marks)]
+    ts = rule_d20(ts, log)
     ts = rule_d2(ts, log)
     ts = rule_d5(ts, log)
     ts = rule_d6(ts, log)
     ts = rule_d19(ts, log)
+    ts = rule_d21(ts, log)
     ts = rule_d3(ts, log, drop=opts.get('drop_asserts', ()))
     ts = rule_d4a(ts, log)
     ts = rule_d10(ts, log)
